@@ -251,6 +251,10 @@ QPut(w, q, d) ==
   /\ cb' = [cb EXCEPT ![w].s = 1]
   /\ UNCHANGED <<cur, got, th, lk, stk, freeD, freeS, flS, nD, nS, nL, anw, tg, bad, sv>>
 
+\* every queue event carries top - base, the number of entries the implementation's index arithmetic
+\* says are left in queue q after the operation; it must be the length of the abstract queue
+QLenIs(q, n) == q \in W /\ Len(runq'[q]) = n
+
 \* idle worker starts / resumes the thread it obtained
 SchedRun(w, n) ==
   /\ Idle(w) /\ got[w] = n /\ n # 0
